@@ -1,4 +1,5 @@
 import DSV.Model.Gc
+import DSV.Proofs.Marker
 /-!
 C05 — garbage collection never deletes anything reachable or in flight (path handling + delete decision).
 -/
@@ -123,3 +124,60 @@ example : gcPrefix (normalize ['d'] ['/', 'x', '/', 'd']) ([['/', 'd', 'a', 't',
     (fun _ => true) [['d', 'a', 't', 'a', '/', 'l'], ['d', 'a', 't', 'a', '/', 'o']] = some [['d', 'a', 't', 'a', '/', 'o']] := by decide
 
 end DSV.Gc
+
+/-! ### which marker protects which queued file (live transactions; repairs c834a8f, 0f909e5) -/
+namespace DSV.Props.C05m
+open DSV.Marker
+
+/-- **queued_files_all_covered** — after `append_files` has run over a batch, EVERY path of the batch has its marker name among
+the markers this transaction holds (whatever the naming scheme) -/
+theorem queued_files_all_covered (name : Str → Str) (held paths : List Str) :
+    ∀ p ∈ paths, name p ∈ (register name held paths).1 :=
+  fun p hp => register_fst_mem name paths held [] p hp
+
+/-- **separated_names_register_each** — a path whose marker name is not already held and is shared with no other path of the batch
+gets a marker OF ITS OWN (it is not skipped as "already registered") -/
+theorem separated_names_register_each (name : Str → Str) (held paths : List Str) (p : Str) (hp : p ∈ paths)
+    (hnew : name p ∉ held) (hsep : ∀ q ∈ paths, name q = name p → q = p) : p ∈ (register name held paths).2 :=
+  register_snd_mem name paths held [] p hp hnew hsep
+
+def eu : Str := "/data/region=eu/part-0.parquet".toList
+def us : Str := "/data/region=us/part-0.parquet".toList
+
+/-- what the property excludes (the scheme as first repaired): with base-name-only markers the second of two files sharing a base
+name is skipped — it has no marker of its own and the one marker's payload names the other file -/
+theorem basename_markers_skip_second : (register markerNameBasename [] [eu, us]).2 = [eu] ∧
+    markerNameBasename eu = markerNameBasename us := by decide +kernel
+
+/-- with the digest-carrying names both are registered, for ANY digest function that tells the two paths apart -/
+theorem digest_markers_register_both (digest : Str → Str) (h : digest (lstripSlash eu) ≠ digest (lstripSlash us)) :
+    us ∈ (register (markerName digest) [] [eu, us]).2 ∧ eu ∈ (register (markerName digest) [] [eu, us]).2 := by
+  have hne : markerName digest eu ≠ markerName digest us := by
+    intro e
+    have e1 : markerName digest eu = digest (lstripSlash eu) ++ '-' :: "part-0.parquet".toList := rfl
+    have e2 : markerName digest us = digest (lstripSlash us) ++ '-' :: "part-0.parquet".toList := rfl
+    rw [e1, e2] at e
+    have hl : (digest (lstripSlash eu) ++ '-' :: "part-0.parquet".toList).length = (digest (lstripSlash us) ++ '-' :: "part-0.parquet".toList).length := by rw [e]
+    have hlen : (digest (lstripSlash eu)).length = (digest (lstripSlash us)).length := by
+      simp only [List.length_append, List.length_cons] at hl; omega
+    exact h (List.append_inj_left e hlen)
+  constructor
+  · apply separated_names_register_each _ _ _ us (by simp) (by simp)
+    intro q hq hn
+    rcases List.mem_cons.mp hq with rfl | hq
+    · exact absurd hn hne
+    · simpa using hq
+  · apply separated_names_register_each _ _ _ eu (by simp) (by simp)
+    intro q hq hn
+    rcases List.mem_cons.mp hq with rfl | hq
+    · rfl
+    · have : q = us := by simpa using hq
+      subst this
+      exact absurd hn.symm hne
+
+/-- files the library itself writes keep their historical marker names (the digest is not consulted) -/
+theorem library_marker_names_unchanged (digest : Str → Str) :
+    markerName digest "data/auto_1f.parquet".toList = "auto_1f.parquet".toList ∧
+    markerName digest "/metadata/manifests/manifest_7.avro".toList = "manifest_7.avro".toList := ⟨rfl, rfl⟩
+
+end DSV.Props.C05m
